@@ -3,10 +3,14 @@ package c08
 import (
 	"encoding/json"
 	"fmt"
+	"io"
+	"log/slog"
 	"os"
+	"path/filepath"
 	"strings"
 	"testing"
 
+	"github.com/a-h/templ/cmd/templ/fmtcmd"
 	"github.com/a-h/templ/parser/v2"
 	"pgregory.net/rapid"
 
@@ -26,6 +30,8 @@ func TestMain(m *testing.M) {
 
 type Case struct {
 	Source ev.QStr `json:"source"`
+	// ViaCmd: formatted by the `templ fmt <dir>` code path instead of parse + write.
+	ViaCmd bool `json:"via_cmd,omitempty"`
 }
 
 var rec = ev.New("C08", "c08.format-preserves",
@@ -33,12 +39,38 @@ var rec = ev.New("C08", "c08.format-preserves",
 		"fmt(x) (what `templ fmt` does: parse, then write) must be accepted too, and the Go generated from x and from fmt(x), both gofmt-ed and reduced to token streams (comments and layout dropped, templ.Error Line/Col masked), must be identical - the same program, hence the same bytes for all arguments. "+
 		"Non-trivial = fmt(x) != x; distinct by source")
 
-func decide(src string) (changed bool, err error) {
+func decide(src string) (changed bool, err error) { return decideWith(src, tc.Format) }
+
+// formatViaCmd formats the source the way `templ fmt <dir>` does: the file is written to a
+// directory and formatted in place by fmtcmd.Run (parse, import clean-up - which generates code
+// from the parse tree -, then write of the same tree).
+func formatViaCmd(src string) (string, error) {
+	base := os.Getenv("VERIF_SCRATCH")
+	if base == "" {
+		base = os.TempDir()
+	}
+	dir, derr := os.MkdirTemp(base, "c08fmt-")
+	if derr != nil {
+		panic(derr)
+	}
+	defer os.RemoveAll(dir)
+	name := filepath.Join(dir, "f.templ")
+	if err := os.WriteFile(name, []byte(src), 0o644); err != nil {
+		panic(err)
+	}
+	if err := fmtcmd.Run(slog.New(slog.NewTextHandler(io.Discard, nil)), strings.NewReader(""), io.Discard, fmtcmd.Arguments{Files: []string{dir}, WorkerCount: 1}); err != nil {
+		return "", err
+	}
+	b, err := os.ReadFile(name)
+	return string(b), err
+}
+
+func decideWith(src string, format func(string) (string, error)) (changed bool, err error) {
 	g1, _, gerr := tc.Generate(src, "f.templ")
 	if gerr != nil {
 		return false, nil // not accepted: outside the domain
 	}
-	formatted, ferr := tc.Format(src)
+	formatted, ferr := format(src)
 	if ferr != nil {
 		return false, fmt.Errorf("an accepted file cannot be formatted: %v", ferr)
 	}
@@ -65,6 +97,10 @@ func init() {
 	ev.RegisterReplay("c08.format-preserves", func(raw json.RawMessage) error {
 		var c Case
 		if err := json.Unmarshal(raw, &c); err != nil {
+			return err
+		}
+		if c.ViaCmd {
+			_, err := decideWith(string(c.Source), formatViaCmd)
 			return err
 		}
 		_, err := decide(string(c.Source))
@@ -306,6 +342,29 @@ func TestPropOneLiners(t *testing.T) {
 		check(t, src, name+": ")
 	})
 	rec.ClassN("one-line family (enumerated completely)", n)
+}
+
+// TestPropFmtCmd: the same oracle with the formatting done by the `templ fmt` command's own code
+// path.
+func TestPropFmtCmd(t *testing.T) {
+	g := tgen.GenFile(tgen.DefaultOptions)
+	rapid.Check(t, func(t *rapid.T) {
+		f := g.Draw(t, "file")
+		src, _ := tgen.Print(f, "P")
+		rec.Eval(1)
+		rec.Class("formatted by the templ fmt command path")
+		changed, err := decideWith(src, formatViaCmd)
+		if changed {
+			rec.NonTrivial("cmd:"+src, func() any { return clip(src) })
+		}
+		if err != nil {
+			if k := knownClass(src, err); k != "" && ev.IsOpenFinding("C08", k) {
+				rec.Excluded(k)
+				return
+			}
+			rec.Fail(t, Case{Source: ev.QStr(src), ViaCmd: true}, "(formatted by the templ fmt command path) %v\n--- original:\n%s", err, src)
+		}
+	})
 }
 
 func TestPropGenerated(t *testing.T) {
